@@ -283,7 +283,13 @@ def fs_write_frame(repo, rel, allowed, tag='fs'):
                 sites.append((ch.lineno, ast.unparse(ch)))
         want = allowed.get(qn, [])
         got = [s for _, s in sites]
-        ok = sorted(got) == sorted(want)
+        if callable(want):
+            # a predicate over the call nodes (robust against renamed variables): want(function node, [call nodes]) -> bool
+            calls = [ch for ch in ast.walk(node) if isinstance(ch, ast.Call) and ast.unparse(ch) in got]
+            ok = bool(want(node, calls))
+            want = 'predicate %s' % getattr(want, '__name__', 'allowed')
+        else:
+            ok = sorted(got) == sorted(want)
         records.append({'name': '%s.frame.%s.%s' % (tag, rel.replace('/', '.').replace('.py', ''), qn), 'ok': ok,
                         'detail': '' if ok else 'file-system updates %r, allowed %r' % (sites, want), 'fn': '%s:%s' % (rel, qn), 'site': '%s:%s' % (rel, qn),
                         'witness': None if ok else {'file': rel, 'function': qn, 'statements': sites, 'allowed': want}})
